@@ -1,20 +1,20 @@
 /-
 C20 — writing the same document twice gives identical bytes: every emission site of the
-order-oracle model (`Model/C20.lean`) is independent of the oracle, except the dictionary of
-the cross-reference stream.  Builder b0320.
+order-oracle model (`Model/C20.lean`) is independent of the oracle.  Builder b0320; sites 5 and 6
+repaired in /repo (fix 8d436ce0, fix b6546a33) and proved at full strength since.
 
 /- FULL (DESIGN §7 C20):  ∀ π₁ π₂ (orders of every HashMap iteration), for every unencrypted
    configuration, writeDoc d cfg π₁ = writeDoc d cfg π₂.
-   FALSE of the current code when `use_xref_streams`: `write_xref_stream` emits
-   `for (key, value) in dict.iter()` as iterated (pdf_writer/mod.rs:4074) — witness
-   `C20_witness_xref_stream_dict_order`: two orders, two different byte strings.
-   Proved instead (`…_partial` = everything except that site): each site separately, for all
-   inputs and all pairs of oracles. -/
+   Proved site by site, for all inputs and all pairs of oracles.  Two sites WERE false of the
+   code as found (the cross-reference stream dictionary and the /AP appearance-stream
+   allocation were walked in HashMap order); the witnesses below are kept as statements about
+   the pre-repair definitions (`…UnsortedO`), i.e. about the regression the check must catch. -/
 Values of dictionaries are opaque serialised byte strings: the Dictionary arm serialises a value
 AFTER the entries have been sorted and as a function of the value alone, so independence of the
 flat lemma lifts to nested dictionaries by induction on depth (not formalised).
 -/
 import OxiVerif.Model.C20
+import OxiVerif.Model.C20Rewrite
 namespace OxiVerif.C20
 open OxiVerif.C03 List
 
@@ -223,25 +223,130 @@ example : classicTailO List.reverse id [(2, 15), (1, 40)] 1 3 77 = classicTailO 
   C20_classic_xref_and_trailer _ _ _ _ _ _ _ _ (fun _ => List.reverse_perm _) (fun _ => Perm.refl _)
     (fun _ => Perm.refl _) (fun _ => List.reverse_perm _)
 
-/-! ## 5. the unsorted site -/
-/-- WITNESS: `write_xref_stream` emits its dictionary in iteration order; the identity order and
-the reversed order give different bytes (byte 4 is `T` of `/Type` resp. `L` of `/Length`), for
-every document. -/
+/-! ## 5. the cross-reference stream dictionary (repaired by 8d436ce0) -/
+/-- the cross-reference stream dictionary is independent of the iteration order -/
+theorem C20_xref_stream_dict (π₁ π₂ : Oracle DictE) (n root info : Nat) (w : Nat × Nat × Nat) (len : Nat)
+    (h₁ : ∀ l, π₁ l ~ l) (h₂ : ∀ l, π₂ l ~ l) :
+    xrefStreamDictO π₁ n root info w len = xrefStreamDictO π₂ n root info w len := by
+  unfold xrefStreamDictO
+  apply C20_sorted_dict_emission _ _ _ (h₁ _) (h₂ _)
+  simp [NodupKeys, xrefStreamDict, kType, kSize, kRoot, kInfo, kW, kIndex, kFilter, kLength]
+
+example : xrefStreamDictO List.reverse 5 1 2 (1, 2, 1) 30 = xrefStreamDictO id 5 1 2 (1, 2, 1) 30 :=
+  C20_xref_stream_dict _ _ _ _ _ _ _ (fun _ => List.reverse_perm _) (fun _ => Perm.refl _)
+
+/-- REGRESSION WITNESS: the site as it was before the repair (emitted as iterated) is NOT
+deterministic: the identity order and the reversed order give different bytes (byte 4 is `T` of
+`/Type` resp. `L` of `/Length`), for every document. -/
 theorem C20_witness_xref_stream_dict_order (n root info : Nat) (w : Nat × Nat × Nat) (len : Nat) :
-    xrefStreamDictO id n root info w len ≠ xrefStreamDictO List.reverse n root info w len := by
+    xrefStreamDictUnsortedO id n root info w len ≠ xrefStreamDictUnsortedO List.reverse n root info w len := by
   intro h
   have := congrArg (fun l => l[4]?) h
-  simp [xrefStreamDictO, xrefStreamDict, emitDict, emitEntries, kType, kLength] at this
+  simp [xrefStreamDictUnsortedO, xrefStreamDict, emitDict, emitEntries, kType, kLength] at this
 
 /-- …and `List.reverse` is a legitimate iteration order -/
 example (l : List DictE) : List.reverse l ~ l := List.reverse_perm l
 
-/-- PARTIAL: with the one-line repair (sort before emitting, i.e. the Dictionary arm) the
-cross-reference stream dictionary is deterministic too -/
-theorem C20_xref_stream_dict_sorted_partial (π₁ π₂ : Oracle DictE) (n root info : Nat) (w : Nat × Nat × Nat) (len : Nat)
-    (h₁ : ∀ l, π₁ l ~ l) (h₂ : ∀ l, π₂ l ~ l) :
-    emitSortedDict π₁ (xrefStreamDict n root info w len) = emitSortedDict π₂ (xrefStreamDict n root info w len) := by
-  apply C20_sorted_dict_emission _ _ _ (h₁ _) (h₂ _)
-  simp [NodupKeys, xrefStreamDict, kType, kSize, kRoot, kInfo, kW, kIndex, kFilter, kLength]
+/-! ## 6. appearance-stream allocation (repaired by b6546a33) -/
+/-- the object numbers given to the inline streams of an /AP (/N, /D) dictionary are independent
+of the iteration order -/
+theorem C20_ap_stream_allocation (π₁ π₂ : Oracle DictE) (next : Nat) (d : List DictE)
+    (h₁ : π₁ d ~ d) (h₂ : π₂ d ~ d) (hn : NodupKeys d) :
+    externalizeO π₁ next d = externalizeO π₂ next d := by
+  unfold externalizeO
+  rw [sortEntries_perm h₁ (hn.perm h₁.symm (fun h => h.symm)), sortEntries_perm h₂ (hn.perm h₂.symm (fun h => h.symm))]
+
+example : externalizeO List.reverse 7 [(kType, [1]), (kSize, [2])] = externalizeO id 7 [(kType, [1]), (kSize, [2])] :=
+  C20_ap_stream_allocation List.reverse id 7 _ (List.reverse_perm _) (Perm.refl _)
+    (by simp [NodupKeys, kType, kSize])
+
+/-- REGRESSION WITNESS: before the repair (`/Yes`, `/Off` of `create_checkbox_widget` walked in
+HashMap order) the object numbers of the two streams depended on the iteration order — and with
+them the positions of both stream objects and every later object number. -/
+theorem C20_witness_ap_stream_allocation (next : Nat) (a b : List Nat) :
+    externalizeUnsortedO id next [("Yes", a), ("Off", b)] = [("Yes", next), ("Off", next + 1)] ∧
+    externalizeUnsortedO List.reverse next [("Yes", a), ("Off", b)] = [("Off", next), ("Yes", next + 1)] := by
+  simp [externalizeUnsortedO, allocFrom]
+
+/-! ## 7. the same `Document` value written twice (`Model/C20Rewrite.lean`)
+
+/- FULL: ∀ hasMgr M W acro, (writeTwice hasMgr M W acro).1 = (writeTwice hasMgr M W acro).2.
+   FALSE of the current code (known finding C20-F3): a document with FormManager fields AND widget
+   annotations carrying /T, no AcroForm yet — the first serialisation creates `document.acro_form`
+   only in `write_catalog`, AFTER `write_form_fields` looked for it, so the first file lists only
+   the manager's fields and the second lists the widgets too (`C20_witness_rewrite`).
+   Proved instead: stable in every other case (`C20_rewrite_stable_partial`). -/ -/
+
+theorem appendNew_all_contained (f : List Nat) (M : List Nat) (h : ∀ r ∈ M, r ∈ f) : appendNew f M = f := by
+  induction M generalizing f with
+  | nil => rfl
+  | cons r rest ih =>
+    have hr : f.contains r = true := by simp [h r (by simp)]
+    simp only [appendNew, hr, if_true]
+    exact ih f (fun x hx => h x (by simp [hx]))
+
+theorem appendNew_prefix (f M : List Nat) : f <+: appendNew f M := by
+  induction M generalizing f with
+  | nil => exact List.prefix_refl _
+  | cons r rest ih =>
+    simp only [appendNew]
+    split
+    · exact ih f
+    · exact List.IsPrefix.trans (List.prefix_append f [r]) (ih _)
+
+theorem appendNew_mem (f M : List Nat) : ∀ r ∈ M, r ∈ appendNew f M := by
+  induction M generalizing f with
+  | nil => intro r h; cases h
+  | cons a rest ih =>
+    intro r hr
+    simp only [appendNew]
+    rcases List.mem_cons.mp hr with rfl | hr
+    · split
+      · rename_i hc
+        exact (appendNew_prefix f rest).subset (by simpa using hc)
+      · exact (appendNew_prefix _ rest).subset (by simp)
+    · exact ih _ r hr
+
+theorem appendNew_idem (f M : List Nat) : appendNew (appendNew f M) M = appendNew f M :=
+  appendNew_all_contained _ _ (appendNew_mem f M)
+
+theorem appendNew_subset (f M : List Nat) : ∀ r ∈ appendNew f M, r ∈ f ∨ r ∈ M := by
+  induction M generalizing f with
+  | nil => intro r h; exact Or.inl h
+  | cons a rest ih =>
+    intro r hr
+    simp only [appendNew] at hr
+    split at hr
+    · rcases ih f r hr with h | h
+      · exact Or.inl h
+      · exact Or.inr (by simp [h])
+    · rcases ih _ r hr with h | h
+      · rcases List.mem_append.mp h with h | h
+        · exact Or.inl h
+        · exact Or.inr (by simp at h; simp [h])
+      · exact Or.inr (by simp [h])
+
+/-- re-writing is stable unless (no AcroForm yet ∧ FormManager fields ∧ widget annotations with /T) -/
+theorem C20_rewrite_stable_partial (hasMgr : Bool) (M W : List Nat) (acro : Option (List Nat))
+    (h : acro ≠ none ∨ hasMgr = false ∨ W = []) :
+    (writeTwice hasMgr M W acro).1 = (writeTwice hasMgr M W acro).2 := by
+  unfold writeTwice writeFields
+  cases hasMgr <;> cases acro <;> cases W <;> simp_all [appendNew_idem]
+
+theorem C20_witness_rewrite (M W : List Nat) (w : Nat) (hw : w ∈ W) (hd : w ∉ M) :
+    (writeTwice true M W none).1 ≠ (writeTwice true M W none).2 := by
+  unfold writeTwice writeFields
+  have hne : W.isEmpty = false := by cases W <;> simp_all
+  simp only [hne, Option.getD, if_true]
+  intro h
+  have h' := Option.some.inj h
+  have : w ∈ appendNew [] M := by
+    rw [h']; exact (appendNew_prefix W M).subset hw
+  rcases appendNew_subset [] M w this with h1 | h1
+  · cases h1
+  · exact hd h1
+
+example : writeTwice true [4, 5] [12, 15, 18] none = (some [4, 5], some [12, 15, 18, 4, 5]) := by decide
+example : (some [1] : Option (List Nat)) ≠ none ∨ true = false ∨ [7] = ([] : List Nat) := Or.inl (by simp)
 
 end OxiVerif.C20
